@@ -60,6 +60,7 @@ IMAGES = [
     ("an all-zero area between two others", [(0xc0d0, 0x0000, pat(10, 6)), (0xc0d0, 0x0080, bytes(32)), (0xc0d0, 0x0200, pat(12, 7))]),
     ("an all-zero image", [(0xc0d0, 0x0000, bytes(48))]),
     ("area longer than one record", [(0xc0d0, 0x1000, pat(300, 8))]),
+    ("an area of exactly 4096 bytes and one of 8192", [(0xc0d0, 0x0000, pat(4096, 12)), (0xc0d1, 0x0000, pat(8192, 13))]),
     ("contiguous pieces (one area) then a separate one", [(0xc0d0, 0x0000, pat(8, 9)), (0xc0d0, 0x0008, pat(8, 10)), (0xc0d0, 0x0100, pat(4, 11))]),
 ]
 
@@ -121,7 +122,7 @@ class MemFS:
 
 
 @obligation(tier="quick", parts=len(IMAGES), timeout=200, part_names=lambda i: IMAGES[i][0],
-            bounds="8 catalogue images (partition); a symbolic cut position 1..40 (T: 1..300) and a second one derived from it (k+1 | 2k+1 | 255) decide "
+            bounds="9 catalogue images (partition); a symbolic cut position 1..40 (T: 1..300) and a second one derived from it (k+1 | 2k+1 | 255) decide "
                    "where every area is cut into records; the same image is hashed with these cuts and with no cuts",
             examples=[(i, dict(k1=3, k2=1)) for i in range(len(IMAGES))])
 def app_hash(k1: int, k2: int) -> bool:
@@ -270,7 +271,7 @@ def one_time(s: int, shift: int) -> bool:
 
 
 @obligation(tier="quick", parts=2, timeout=120, part_names=["signapp hash", "signapp message"],
-            bounds="signapp's hash / message operations on the 8 catalogue images (symbolic selection): the printed hash / the hash inside "
+            bounds="signapp's hash / message operations on the 9 catalogue images (symbolic selection): the printed hash / the hash inside "
                    "the authorization message is SHA-256 over the areas in address order",
             examples=[(0, dict(i=0)), (1, dict(i=4)), (0, dict(i=2))])
 def signapp_ops(i: int) -> bool:
